@@ -118,9 +118,9 @@ def json_case(case, ctx):
     sp = case["a"]
     m = model.from_spec(sp)
     a = gen.build(sp, meta=False)
-    a._attrs.update(case["attrs"])
+    a.attrs.update(case["attrs"])
     if case["bad_attr"]:
-        a._attrs['arr'] = np.arange(3)            # not JSON-representable: must be dropped without failing
+        a.attrs['arr'] = np.arange(3)            # not JSON-representable: must be dropped without failing
     label = "from_json(to_json(a)) dims=%r labels=%s %s%s attrs=%s" % (m.dims, codec.short(m.labels, 100), m.values.dtype, m.shape, codec.short(case["attrs"], 80))
     s, exc = ctx.call("a.to_json() " + label, lambda: a.to_json(), operands=(a,))
     ctx.outcomes['json-roundtrips'] += 1
